@@ -60,6 +60,8 @@ SOpcall(f)        == [op |-> "opcall", f |-> f]       \* the op callable of a Fo
 SNest(call)       == [op |-> "nest", call |-> call, log |-> FALSE]   \* custom spec whose glomit calls glom() re-entrantly
 SNestLog(call)    == [op |-> "nest", call |-> call, log |-> TRUE]    \* ... and, when the inner call fails, renders the error
                                                                     \* (str(e), e.g. logging) before re-raising it: no effect on any outcome
+SScopeLit         == [op |-> "scopelit"]                \* (S(seen={}), A.seen['k'], S.seen): an EMPTY literal container given as
+                                                       \* a scope value is rebuilt per evaluation; the write goes into that copy
 SCheck(eq, f)     == [op |-> "check", eq |-> eq, f |-> f]   \* Check(equal_to=eq, validate=V): the target itself, or CheckError
                                                           \* listing every failed condition; V (a user callable, f = "vtrue" / "vfalse") always runs
 STPlus(v)         == [op |-> "tplus", v |-> v]          \* T + [..]: a new list (v: a list value), the operand is not touched
@@ -77,7 +79,8 @@ SFill(c)          == [op |-> "fill", c |-> c]         \* Fill(c)
 SBind(name, c)    == [op |-> "bind", name |-> name, c |-> c]   \* S(name=Spec(c))
 SRead(name)       == [op |-> "read", name |-> name]   \* S[name]
 SArgList(c)       == [op |-> "arglist", c |-> c]      \* a list ARGUMENT holding sub-specs: default=[s1, s2] (rebuilt per evaluation)
-SLast(init)       == [op |-> "lastvar", init |-> init]   \* (S(v=Vars({'n': init})), [A.v.n], S.v.n): a scope variable
+SLastY(init)      == [op |-> "lastvar", init |-> init, y |-> TRUE]    \* ... with a probe (yield point) between the writes and the read
+SLast(init)       == [op |-> "lastvar", init |-> init, y |-> FALSE]   \* (S(v=Vars({'n': init})), [A.v.n], S.v.n): a scope variable
                                                         \* object created per evaluation, assigned per item, read at the end
 SInvoke(c, k, v)  == [op |-> "invoke", c |-> c, k |-> k, v |-> v]   \* Invoke(kwfn).star(kwargs=c).constants(k=v); kwfn(**kw) = dict(kw)
 \* Coalesce default: none, a constant (d.v), or a list argument with sub-specs (d.s = <<SArgList(..)>>)
@@ -154,6 +157,8 @@ ApplyF(f, t) ==
   CASE f = "id"   -> Ok(t)
     [] f = "inc"  -> IF t.k = "int" THEN Ok(VInt(t.i + 1)) ELSE Exc("TypeError")
     [] f = "boom" -> Exc("ValueError")
+    [] f = "boomA" -> Exc("BoomA")      \* two DISTINCT user exception classes that are both named "Boom":
+    [] f = "boomB" -> Exc("BoomB")      \* the error leaving glom() is an instance of the class that was raised
     [] f = "vtrue"  -> Ok(VInt(1))
     [] f = "vfalse" -> Ok(VInt(0))
     [] OTHER      -> Exc("UNMODELLED")
@@ -265,6 +270,7 @@ NodeAtL(n, path) ==
       [] n.op \in {"each", "fill", "bind", "invoke", "refdef"} -> NodeAtL(n.c, rest)
       [] n.op = "acc"                      -> IF n.kind = "group" THEN SProbe(n.f) ELSE SOpcall(n.f)
       [] n.op = "check"                    -> SOpcall(n.f)
+      [] n.op = "lastvar"                  -> SProbe("id")
 IsStrDict(v) == v.k = "dict" /\ \A i \in 1..Len(v.v) : v.v[i][1].k = "str"
 
 Ev(n, at, t, env) ==
@@ -314,6 +320,8 @@ Ev(n, at, t, env) ==
     [] n.op = "bind" -> LET r == Ev(n.c, Sub(at, 1), t, env) IN
                         IF r.ok THEN Res(TRUE, t, NoErr, r.obs, <<n.name, r.v>>) ELSE r
     [] n.op = "read" -> IF HasKey(env.vis, n.name) THEN Good(Lookup(env.vis, n.name), <<>>) ELSE Bad(PAE(at), <<>>)
+    [] n.op = "scopelit" ->
+         IF env.mode # "AUTO" THEN Bad(Unmodelled(at), <<>>) ELSE Good(VDict(<< <<VStr("k"), t>> >>), <<>>)
     [] n.op = "check" ->
          LET r == Ev(SOpcall(n.f), Sub(at, 1), t, [env EXCEPT !.acc = <<>>]) IN
          IF ~r.ok THEN r
@@ -334,7 +342,8 @@ Ev(n, at, t, env) ==
               IF h = "NONE" THEN Bad(Err("UnregisteredTarget", TRUE, Sub(at, 2), <<>>), <<>>)
               ELSE IF h = "iterstr" THEN Bad(Unmodelled(at), <<>>)
               ELSE LET items == IterItems(h, t) IN
-                   Good(IF items = <<>> THEN VInt(n.init) ELSE items[Len(items)], <<>>)
+                   Good(IF items = <<>> THEN VInt(n.init) ELSE items[Len(items)],
+                        IF n.y THEN <<MkObs(Sub(at, 3), env.d, VList(items), env.rt, "AUTO", env.vis, <<>>)>> ELSE <<>>)
     [] n.op = "arglist" ->                                             \* argument mode: a new list per evaluation
          LET r == EvAll(n.c, 1, at, t, env, <<>>, <<>>) IN IF r.ok THEN Good(VList(r.v), r.obs) ELSE r
     [] n.op = "invoke" ->                                              \* kwfn(**<value of c>, k=v): a new dict
@@ -437,6 +446,7 @@ NodeAt(n, path) ==
       [] n.op \in {"each", "fill", "bind", "invoke", "refdef"} -> NodeAt(n.c, rest)
       [] n.op = "acc"                      -> IF n.kind = "group" THEN SProbe(n.f) ELSE SOpcall(n.f)
       [] n.op = "check"                    -> SOpcall(n.f)
+      [] n.op = "lastvar"                  -> SProbe("id")
 NodeOf(P, f) == IF f.op = "call" THEN [op |-> "call", call |-> P.calls[f.lvl]]
                 ELSE NodeAt(P.calls[f.lvl].spec, f.at)
 Child(P, f, cn, k, t, vis, av) == Push(SetTop(P, f), Frame(cn.op, f.lvl, Sub(f.at, k), t, f.mode, vis, av, f.sid))
@@ -598,6 +608,9 @@ MCheck(P, G, f, n) ==      \* errs is a local list of this evaluation
     [] P.ctl = "ret" -> X(IF VEq(f.t, n.eq) /\ P.v = VInt(1) THEN Ret(P, f.t) ELSE Raise(P, Err("CheckError", TRUE, f.at, <<>>)), G)
     [] OTHER -> X(Raise(P, P.e), G)
 
+MScopeLit(P, G, f, n) ==
+  X(IF f.dm # "AUTO" THEN Raise(P, Unmodelled(f.at)) ELSE Ret(P, VDict(<< <<VStr("k"), f.t>> >>)), G)
+
 MTPlus(P, G, f, n) == X(IF f.t.k = "list" THEN Ret(P, VList(f.t.v \o n.v.v)) ELSE Raise(P, PAE(f.at)), G)
 
 MRefDef(P, G, f, n) ==       \* scope[(Ref, name)] = subspec in this frame; then the subspec is evaluated under it
@@ -618,10 +631,15 @@ MRefUse(P, G, f, n) ==       \* subspec = scope[(Ref, name)]: the frame chain of
 MLast(P, G, f, n) ==      \* the Vars object lives in the frames of this evaluation only
   CASE f.ph = 0 -> IF f.dm # "AUTO" THEN X(Raise(P, Unmodelled(f.at)), G)
                    ELSE X(NeedHandler(P, [f EXCEPT !.ph = 1], TypeOf(f.t), "iterate", "h"), G)
-    [] OTHER -> IF f.h = "NONE" THEN X(Raise(P, Err("UnregisteredTarget", TRUE, Sub(f.at, 2), <<>>)), G)
-                ELSE IF f.h = "iterstr" THEN X(Raise(P, Unmodelled(f.at)), G)
-                ELSE LET items == IterItems(f.h, f.t) IN
-                     X(Ret(P, IF items = <<>> THEN VInt(n.init) ELSE items[Len(items)]), G)
+    [] f.ph = 1 ->
+         IF f.h = "NONE" THEN X(Raise(P, Err("UnregisteredTarget", TRUE, Sub(f.at, 2), <<>>)), G)
+         ELSE IF f.h = "iterstr" THEN X(Raise(P, Unmodelled(f.at)), G)
+         ELSE LET items == IterItems(f.h, f.t)
+                  last == IF items = <<>> THEN VInt(n.init) ELSE items[Len(items)] IN
+              IF n.y THEN X(Child(P, [f EXCEPT !.ph = 2, !.cur = last], SProbe("id"), 3, VList(items), f.vis, <<>>), G)
+              ELSE X(Ret(P, last), G)
+    [] P.ctl = "ret" -> X(Ret(P, f.cur), G)              \* S.v.n: read from this evaluation's own namespace
+    [] OTHER -> X(Raise(P, P.e), G)
 
 MRead(P, G, f, n) ==
   X(IF HasKey(f.vis, n.name) THEN Ret(P, Lookup(f.vis, n.name)) ELSE Raise(P, PAE(f.at)), G)
@@ -684,6 +702,7 @@ Micro(P, G) ==
     [] op = "lastvar" -> MLast(P, G, f, n)
     [] op = "tplus" -> MTPlus(P, G, f, n)
     [] op = "check" -> MCheck(P, G, f, n)
+    [] op = "scopelit" -> MScopeLit(P, G, f, n)
     [] op = "refdef" -> MRefDef(P, G, f, n)
     [] op = "refuse" -> MRefUse(P, G, f, n)
     [] op = "invoke" -> MInvoke(P, G, f, n)
